@@ -405,7 +405,10 @@ class Conv1d(nn.Module):
         if padding == 'same':
             if stride != 1:
                 raise ValueError("padding='same' is not supported for strided convolutions")
-            padding = int(np.floor(kernel_size / 2))
+            total_padding = dilation * (kernel_size - 1)
+            if total_padding % 2 != 0:
+                raise ValueError("padding='same' requires dilation * (kernel_size - 1) to be even (asymmetric padding is not supported)")
+            padding = total_padding // 2
         if padding == 'valid':
             padding = 0
         
@@ -471,14 +474,17 @@ class Conv2d(nn.Module):
         kernel_size = np.broadcast_to(kernel_size, 2)
         stride = np.broadcast_to(stride, 2)
         
-        if padding == 'same':
+        dilation = np.broadcast_to(dilation, 2)
+        if isinstance(padding, str) and padding == 'same':
             if any(s != 1 for s in stride):
                 raise ValueError("padding='same' is not supported for strided convolutions")
-            padding = int(np.floor(kernel_size[0] / 2))
-        if padding == 'valid':
+            total_padding = [int(d * (k - 1)) for k, d in zip(kernel_size, dilation)]
+            if any(t % 2 != 0 for t in total_padding):
+                raise ValueError("padding='same' requires dilation * (kernel_size - 1) to be even (asymmetric padding is not supported)")
+            padding = tuple(t // 2 for t in total_padding)
+        if isinstance(padding, str) and padding == 'valid':
             padding = 0
         padding = np.broadcast_to(padding, 2)
-        dilation = np.broadcast_to(dilation, 2)
         
         self.in_channels = in_channels
         self.out_channels = out_channels
